@@ -4,14 +4,14 @@ From Coq Require Import Lia Btauto String.
 Local Open Scope N_scope.
 
 (* ---- the unrepaired simplify_specifiers is not an equivalence ---- *)
-Definition not_equiv (fixed : bool) (ss : list (spec str)) : Prop :=
-  exists ss' x, simplify_str fixed ss = Ok ss' /\ sat_str x ss' <> sat_str x ss.
+Definition not_equiv (fixed eqv : bool) (ss : list (spec str)) : Prop :=
+  exists ss' x, simplify_str fixed eqv ss = Ok ss' /\ sat_str x ss' <> sat_str x ss.
 
-Lemma simplify_refuted_key : not_equiv false [(OGe, STR "10"); (OGe, STR "9")].
-Proof. exists [(OGe, STR "9")], (STR "9"). split; vm_compute; [reflexivity|discriminate]. Qed.
+Lemma simplify_refuted_key eqv : not_equiv false eqv [(OGe, STR "10"); (OGe, STR "9")].
+Proof. exists [(OGe, STR "9")], (STR "9"). destruct eqv; split; vm_compute; solve [reflexivity|discriminate]. Qed.
 
-Lemma simplify_refuted_ne : not_equiv false [(OGe, STR "1"); (OLe, STR "1"); (ONe, STR "1")].
-Proof. exists [(OEq, STR "1")], (STR "1"). split; vm_compute; [reflexivity|discriminate]. Qed.
+Lemma simplify_refuted_ne eqv : not_equiv false eqv [(OGe, STR "1"); (OLe, STR "1"); (ONe, STR "1")].
+Proof. exists [(OEq, STR "1")], (STR "1"). destruct eqv; split; vm_compute; solve [reflexivity|discriminate]. Qed.
 
 (* ---- general theory over an abstract total preorder of versions ---- *)
 Section Proofs.
@@ -33,6 +33,7 @@ Notation loop := (loop V veqb leb kleb).
 Notation finish := (finish V veqb leb).
 Notation simplify := (simplify V veqb leb kleb).
 Notation key_lt := (key_lt V leb kleb).
+Notation same_eq := (same_eq V veqb leb).
 
 (* decision procedure for goals about leb on a handful of variables *)
 Ltac case_leb :=
@@ -121,13 +122,13 @@ Definition shape (s : st V) : Prop :=
 Definition st_sat x (s : st V) : bool :=
   sat_opt x (s_gt s) && sat_opt x (s_lt s) && sat_opt x (s_eq s) && sat x (s_ne s).
 
-Lemma step_shape fixed s i s' : shape s -> step fixed s i = Some s' -> shape s'.
+Lemma step_shape fixed eqv s i s' : shape s -> step fixed eqv s i = Some s' -> shape s'.
 Proof.
   intros (Hg & Hl & He & Hn). unfold Versions.step, shape.
   destruct i as [oi vi]; cbn [fst snd].
   destruct oi.
   - destruct (s_eq s) eqn:E.
-    + destruct (spec_eqb s0 (OEq, vi)); intros H; inversion H; subst. rewrite E. auto.
+    + destruct (same_eq eqv s0 (OEq, vi)); intros H; inversion H; subst. rewrite E. auto.
     + intros H; inversion H; subst; cbn. auto.
   - intros H; inversion H; subst; cbn. rewrite forallb_app, Hn. auto.
   - intros H; inversion H; subst; cbn [s_gt s_lt s_eq s_ne opt_all]. repeat split; auto.
@@ -141,14 +142,25 @@ Proof.
 Qed.
 
 (* one iteration of the repaired loop keeps the set of members *)
-Lemma step_sat s i s' x : shape s -> step true s i = Some s' -> st_sat x s' = st_sat x s && sat1 x i.
+(* a second == specifier that passes the test says nothing new *)
+Lemma same_eq_sat eqv (e i : spec) x : is_eq e = true -> is_eq i = true -> same_eq eqv e i = true ->
+  sat1 x e = sat1 x e && sat1 x i.
+Proof.
+  intros He Hi Q. unfold Versions.same_eq in Q. destruct eqv.
+  - destruct e as [oe ve], i as [oi vi]. unfold is_eq in *; cbn [fst snd] in *.
+    apply op_eqb_eq in He, Hi. subst. clear - Q leb_total leb_trans. ord.
+  - apply spec_eqb_eq in Q. subst i. btauto.
+Qed.
+
+Lemma step_sat eqv s i s' x : shape s -> step true eqv s i = Some s' -> st_sat x s' = st_sat x s && sat1 x i.
 Proof.
   intros (Hg & Hl & He & Hn). unfold Versions.step, st_sat.
   destruct i as [oi vi]; cbn [fst snd].
   destruct oi.
   - destruct (s_eq s) eqn:E.
-    + destruct (spec_eqb s0 (OEq, vi)) eqn:Q; intros H; inversion H; subst.
-      apply spec_eqb_eq in Q. subst s0. rewrite E. cbn [Versions.sat_opt]. btauto.
+    + destruct (same_eq eqv s0 (OEq, vi)) eqn:Q; intros H; inversion H; subst.
+      rewrite ?E in He. cbn in He. rewrite E. cbn [Versions.sat_opt].
+      rewrite (same_eq_sat eqv s0 (OEq, vi) x He eq_refl Q) at 1. btauto.
     + intros H; inversion H; subst; cbn [s_gt s_lt s_eq s_ne Versions.sat_opt]. btauto.
   - intros H; inversion H; subst; cbn [s_gt s_lt s_eq s_ne]. rewrite sat_app. cbn. btauto.
   - intros H; inversion H; subst; cbn [s_gt s_lt s_eq s_ne].
@@ -169,20 +181,20 @@ Proof.
     + btauto.
 Qed.
 
-Lemma loop_shape fixed ss : forall s s', shape s -> loop fixed s ss = Some s' -> shape s'.
+Lemma loop_shape fixed eqv ss : forall s s', shape s -> loop fixed eqv s ss = Some s' -> shape s'.
 Proof.
   induction ss as [|i r IH]; cbn; intros s s' Hs H.
   - inversion H; subst; auto.
-  - destruct (step fixed s i) eqn:E; [|discriminate]. eapply IH; [|eassumption]. eapply step_shape; eassumption.
+  - destruct (step fixed eqv s i) eqn:E; [|discriminate]. eapply IH; [|eassumption]. eapply step_shape; eassumption.
 Qed.
 
-Lemma loop_sat ss : forall s s' x, shape s -> loop true s ss = Some s' -> st_sat x s' = st_sat x s && sat x ss.
+Lemma loop_sat eqv ss : forall s s' x, shape s -> loop true eqv s ss = Some s' -> st_sat x s' = st_sat x s && sat x ss.
 Proof.
   induction ss as [|i r IH]; intros s s' x Hs H; cbn [Versions.loop] in H.
   - inversion H; subst. cbn. btauto.
-  - destruct (step true s i) eqn:E; [|discriminate].
+  - destruct (step true eqv s i) eqn:E; [|discriminate].
     change (sat x (i :: r)) with (sat1 x i && sat x r).
-    rewrite (IH _ _ x (step_shape _ _ _ _ Hs E) H), (step_sat _ _ _ x Hs E). btauto.
+    rewrite (IH _ _ x (step_shape _ _ _ _ _ Hs E) H), (step_sat _ _ _ _ x Hs E). btauto.
 Qed.
 
 (* dropping the != whose version is out of bounds does not change membership within the bounds *)
@@ -269,14 +281,15 @@ Lemma shape_init : shape (mkst None None None []).
 Proof. repeat split. Qed.
 
 (* C17_simplify_equiv for the repaired code *)
-Theorem simplify_equiv ss ss' : simplify true ss = Ok ss' -> forall x, sat x ss' = sat x ss.
+Theorem simplify_equiv eqv ss ss' : simplify true eqv ss = Ok ss' -> forall x, sat x ss' = sat x ss.
 Proof.
-  unfold Versions.simplify. destruct (loop true (mkst None None None []) ss) as [s|] eqn:E; [|discriminate].
-  intros H x. rewrite (finish_sat s ss' x (loop_shape _ _ _ _ shape_init E) H).
-  rewrite (loop_sat ss _ _ x shape_init E). reflexivity.
+  unfold Versions.simplify. destruct (loop true eqv (mkst None None None []) ss) as [s|] eqn:E; [|discriminate].
+  intros H x. rewrite (finish_sat s ss' x (loop_shape _ _ _ _ _ shape_init E) H).
+  rewrite (loop_sat eqv ss _ _ x shape_init E). reflexivity.
 Qed.
 
-(* ---- rejection is sound (both variants of the key), on sets whose == versions are spelled canonically ---- *)
+(* ---- rejection is sound (both variants of the key): with == compared by version (eqv = true) always, with ==
+   compared as Specifier objects (eqv = false) on sets whose == versions are spelled canonically ---- *)
 Definition canon (ss : list spec) : Prop :=
   forall a b, In a ss -> In b ss -> is_eq a = true -> is_eq b = true ->
               veq (snd a) (snd b) = true -> snd a = snd b.
@@ -285,14 +298,14 @@ Definition mem_inv (ss : list spec) (s : st V) : Prop :=
   (forall g, s_gt s = Some g -> In g ss) /\ (forall l, s_lt s = Some l -> In l ss) /\
   (forall e, s_eq s = Some e -> In e ss) /\ incl (s_ne s) ss.
 
-Lemma step_mem fixed pre s i s' : mem_inv pre s -> step fixed s i = Some s' -> mem_inv (pre ++ [i]) s'.
+Lemma step_mem fixed eqv pre s i s' : mem_inv pre s -> step fixed eqv s i = Some s' -> mem_inv (pre ++ [i]) s'.
 Proof.
   intros (Hg & Hl & He & Hn). unfold Versions.step, mem_inv.
   assert (Ii : In i (pre ++ [i])) by (apply in_or_app; right; left; reflexivity).
   assert (Ip : forall a, In a pre -> In a (pre ++ [i])) by (intros; apply in_or_app; left; assumption).
   destruct (fst i).
   - destruct (s_eq s) eqn:E.
-    + destruct (spec_eqb s0 i); intros H; inversion H; subst. rewrite E.
+    + destruct (same_eq eqv s0 i); intros H; inversion H; subst. rewrite E.
       repeat split; intros; auto. intros a Ha. auto.
     + intros H; inversion H; subst; cbn [s_gt s_lt s_eq s_ne]. repeat split; intros; auto.
       * inversion H0; subst; auto.
@@ -313,28 +326,28 @@ Proof.
     + intros a Ha. auto.
 Qed.
 
-Lemma step_none fixed s i : step fixed s i = None ->
-  exists e, s_eq s = Some e /\ is_eq i = true /\ spec_eqb e i = false.
+Lemma step_none fixed eqv s i : step fixed eqv s i = None ->
+  exists e, s_eq s = Some e /\ is_eq i = true /\ same_eq eqv e i = false.
 Proof.
   unfold Versions.step, is_eq. destruct (fst i); try discriminate.
-  destruct (s_eq s) as [e|]; [|discriminate]. destruct (spec_eqb e i) eqn:Q; [discriminate|].
+  destruct (s_eq s) as [e|]; [|discriminate]. destruct (same_eq eqv e i) eqn:Q; [discriminate|].
   intros _. exists e. auto.
 Qed.
 
-Lemma loop_mem fixed rest : forall pre s s', mem_inv pre s -> loop fixed s rest = Some s' -> mem_inv (pre ++ rest) s'.
+Lemma loop_mem fixed eqv rest : forall pre s s', mem_inv pre s -> loop fixed eqv s rest = Some s' -> mem_inv (pre ++ rest) s'.
 Proof.
   induction rest as [|i r IH]; intros pre s s' Hm H; cbn [Versions.loop] in H.
   - inversion H; subst. rewrite app_nil_r. assumption.
-  - destruct (step fixed s i) eqn:E; [|discriminate].
+  - destruct (step fixed eqv s i) eqn:E; [|discriminate].
     replace (pre ++ i :: r) with ((pre ++ [i]) ++ r) by (rewrite <- app_assoc; reflexivity).
     eapply IH; [|eassumption]. eapply step_mem; eassumption.
 Qed.
 
-Lemma loop_none fixed rest : forall pre s, shape s -> mem_inv pre s -> loop fixed s rest = None ->
-  exists e i, In e (pre ++ rest) /\ In i (pre ++ rest) /\ is_eq e = true /\ is_eq i = true /\ spec_eqb e i = false.
+Lemma loop_none fixed eqv rest : forall pre s, shape s -> mem_inv pre s -> loop fixed eqv s rest = None ->
+  exists e i, In e (pre ++ rest) /\ In i (pre ++ rest) /\ is_eq e = true /\ is_eq i = true /\ same_eq eqv e i = false.
 Proof.
   induction rest as [|i r IH]; intros pre s Hs Hm H; cbn [Versions.loop] in H; [discriminate|].
-  destruct (step fixed s i) eqn:E.
+  destruct (step fixed eqv s i) eqn:E.
   - replace (pre ++ i :: r) with ((pre ++ [i]) ++ r) by (rewrite <- app_assoc; reflexivity).
     eapply IH; [| |eassumption]; [eapply step_shape|eapply step_mem]; eassumption.
   - apply step_none in E. destruct E as (e & Ee & Hi & Q). exists e, i.
@@ -389,23 +402,70 @@ Qed.
 Lemma mem_init : mem_inv [] (mkst None None None []).
 Proof. repeat split; try discriminate. intros a []. Qed.
 
-Theorem simplify_rejects fixed ss : canon ss -> simplify fixed ss = Err -> forall x, sat x ss = false.
+(* the loop raises only on two == specifiers that no version satisfies together: always when they are compared by
+   version, on canonically spelled sets when they are compared as Specifier objects *)
+Lemma simplify_rejects_gen fixed eqv ss : eqv = true \/ canon ss ->
+  simplify fixed eqv ss = Err -> forall x, sat x ss = false.
 Proof.
-  intros Hc. unfold Versions.simplify. destruct (loop fixed (mkst None None None []) ss) as [s|] eqn:E.
+  intros Hc. unfold Versions.simplify. destruct (loop fixed eqv (mkst None None None []) ss) as [s|] eqn:E.
   - intros H. eapply finish_err; [| |exact H].
     + eapply loop_shape; [exact shape_init|exact E].
-    + apply (loop_mem fixed ss [] _ _ mem_init E).
-  - intros _ x. destruct (loop_none fixed ss [] _ shape_init mem_init E) as (e & i & Ie & Ii & He & Hi & Q).
+    + apply (loop_mem fixed eqv ss [] _ _ mem_init E).
+  - intros _ x. destruct (loop_none fixed eqv ss [] _ shape_init mem_init E) as (e & i & Ie & Ii & He & Hi & Q).
     cbn [app] in Ie, Ii. destruct (sat x ss) eqn:SX; [exfalso|reflexivity].
     pose proof (sat_in x ss e SX Ie) as Xe. pose proof (sat_in x ss i SX Ii) as Xi.
     assert (Qv : veq (snd e) (snd i) = true).
     { destruct e as [oe ve], i as [oi vi]. unfold is_eq in *; cbn [fst snd] in *.
       apply op_eqb_eq in He, Hi. subst. clear - Xe Xi leb_total leb_trans. ord. }
+    unfold Versions.same_eq in Q. destruct Hc as [->|Hc]; [congruence|].
+    assert (Q' : spec_eqb e i = false) by (destruct eqv; [congruence|exact Q]).
     pose proof (Hc e i Ie Ii He Hi Qv) as EQ.
     assert (e = i).
     { destruct e as [oe ve], i as [oi vi]. unfold is_eq in *; cbn [fst snd] in *.
       apply op_eqb_eq in He, Hi. subst. reflexivity. }
     subst i. assert (spec_eqb e e = true) by (apply spec_eqb_eq; reflexivity). congruence.
+Qed.
+
+Theorem simplify_rejects fixed eqv ss : canon ss -> simplify fixed eqv ss = Err -> forall x, sat x ss = false.
+Proof. intros Hc. apply simplify_rejects_gen. right. exact Hc. Qed.
+
+(* == compared by version: every rejected set is unsatisfiable - no guard on spellings *)
+Theorem simplify_rejects_repaired fixed ss : simplify fixed true ss = Err -> forall x, sat x ss = false.
+Proof. apply simplify_rejects_gen. left. reflexivity. Qed.
+
+(* ... so a set some version satisfies is accepted, and (repaired key) reported with the same members *)
+Theorem simplify_accepts_repaired ss x : sat x ss = true ->
+  exists ss', simplify true true ss = Ok ss' /\ forall y, sat y ss' = sat y ss.
+Proof.
+  intros Hx. destruct (simplify true true ss) as [ss'|] eqn:E.
+  - exists ss'. split; [reflexivity|]. apply (simplify_equiv true ss ss' E).
+  - rewrite (simplify_rejects_repaired true ss E x) in Hx. discriminate.
+Qed.
+
+(* which == specifier is reported: the FIRST one in iteration order (eq = i only while eq is None) *)
+Definition first_eq (ss : list spec) : option spec := find is_eq ss.
+
+Lemma loop_first_eq fixed eqv ss : forall s s', loop fixed eqv s ss = Some s' ->
+  s_eq s' = match s_eq s with Some e => Some e | None => first_eq ss end.
+Proof.
+  induction ss as [|i r IH]; intros s s' H; cbn [Versions.loop] in H.
+  - inversion H; subst. destruct (s_eq s'); reflexivity.
+  - destruct (step fixed eqv s i) as [s1|] eqn:E; [|discriminate].
+    rewrite (IH _ _ H). unfold first_eq. cbn [find]. unfold is_eq at 2.
+    unfold Versions.step in E. destruct (fst i); cbn [op_eqb];
+      try (inversion E; subst; cbn [s_eq]; destruct (s_eq s); reflexivity).
+    destruct (s_eq s) as [e|] eqn:Q.
+    + destruct (same_eq eqv e i); inversion E; subst. rewrite Q. reflexivity.
+    + inversion E; subst. reflexivity.
+Qed.
+
+Theorem simplify_keeps_first_eq fixed eqv ss ss' e :
+  simplify fixed eqv ss = Ok ss' -> first_eq ss = Some e -> ss' = [e].
+Proof.
+  unfold Versions.simplify. destruct (loop fixed eqv (mkst None None None []) ss) as [s|] eqn:E; [|discriminate].
+  intros H F. pose proof (loop_first_eq _ _ _ _ _ E) as Q. cbn [s_eq] in Q. rewrite F in Q.
+  unfold Versions.finish in H. rewrite Q in H.
+  destruct (existsb _ _ || negb _); inversion H. reflexivity.
 Qed.
 
 (* ---- Requirement / RequirementSet ---- *)
@@ -579,21 +639,21 @@ Proof.
   induction l as [|i r IH]; [reflexivity|]. rewrite sat_cons, <- IH. reflexivity.
 Qed.
 
-Theorem req_split_equiv single (r : req) l :
-  req_split V veqb leb kleb true single r = Ok l -> forall x, simple_sat x l = sat x (snd r).
+Theorem req_split_equiv eqv single (r : req) l :
+  req_split V veqb leb kleb true eqv single r = Ok l -> forall x, simple_sat x l = sat x (snd r).
 Proof.
-  unfold Versions.req_split. destruct (simplify true (snd r)) as [specs|] eqn:E; [|discriminate].
-  intros H x. rewrite <- (simplify_equiv _ _ E x).
+  unfold Versions.req_split. destruct (simplify true eqv (snd r)) as [specs|] eqn:E; [|discriminate].
+  intros H x. rewrite <- (simplify_equiv _ _ _ E x).
   destruct specs as [|s0 rest].
   - inversion H; subst. reflexivity.
   - destruct (single && Nat.ltb 1 (List.length (s0 :: rest))); [discriminate|].
     inversion H; subst. apply (simple_sat_map x (fst r) (s0 :: rest)).
 Qed.
 
-Theorem req_split_single fixed (r : req) l :
-  req_split V veqb leb kleb fixed true r = Ok l -> List.length l = 1%nat.
+Theorem req_split_single fixed eqv (r : req) l :
+  req_split V veqb leb kleb fixed eqv true r = Ok l -> List.length l = 1%nat.
 Proof.
-  unfold Versions.req_split. destruct (simplify fixed (snd r)) as [specs|]; [|discriminate].
+  unfold Versions.req_split. destruct (simplify fixed eqv (snd r)) as [specs|]; [|discriminate].
   destruct specs as [|s0 [|s1 rest]]; cbn; intros H; inversion H; reflexivity.
 Qed.
 End Proofs.
@@ -621,14 +681,29 @@ Lemma sv_leb_trans a b c : sv_leb a b = true -> sv_leb b c = true -> sv_leb a c 
 Proof. apply lex_leb_trans. Qed.
 
 (* theorems for the model the correspondence runs *)
-Theorem simplify_str_equiv ss ss' : simplify_str true ss = Ok ss' -> forall x, sat_str x ss' = sat_str x ss.
+Theorem simplify_str_equiv eqv ss ss' : simplify_str true eqv ss = Ok ss' -> forall x, sat_str x ss' = sat_str x ss.
 Proof. apply (simplify_equiv str str_eqb sv_leb str_leb str_eqb_eq sv_leb_total sv_leb_trans). Qed.
 
-Theorem simplify_str_rejects fixed ss :
-  canon str sv_leb ss -> simplify_str fixed ss = Err -> forall x, sat_str x ss = false.
+Theorem simplify_str_rejects fixed eqv ss :
+  canon str sv_leb ss -> simplify_str fixed eqv ss = Err -> forall x, sat_str x ss = false.
 Proof. apply (simplify_rejects str str_eqb sv_leb str_leb str_eqb_eq sv_leb_total sv_leb_trans). Qed.
 
-(* without the canonical-spelling guard rejection is not sound: ==1,==1.0 *)
+Theorem simplify_str_rejects_repaired fixed ss : simplify_str fixed true ss = Err -> forall x, sat_str x ss = false.
+Proof. apply (simplify_rejects_repaired str str_eqb sv_leb str_leb str_eqb_eq sv_leb_total sv_leb_trans). Qed.
+
+Theorem simplify_str_accepts_repaired ss x : sat_str x ss = true ->
+  exists ss', simplify_str true true ss = Ok ss' /\ forall y, sat_str y ss' = sat_str y ss.
+Proof. apply (simplify_accepts_repaired str str_eqb sv_leb str_leb str_eqb_eq sv_leb_total sv_leb_trans). Qed.
+
+(* == compared as Specifier objects: without the canonical-spelling guard rejection is not sound: ==1,==1.0 *)
 Lemma rejects_refuted_spelling fixed :
-  exists ss x, simplify_str fixed ss = Err /\ sat_str x ss = true.
+  exists ss x, simplify_str fixed false ss = Err /\ sat_str x ss = true.
 Proof. exists [(OEq, STR "1"); (OEq, STR "1.0")], (STR "1"). destruct fixed; split; vm_compute; reflexivity. Qed.
+
+(* the converse of rejection soundness is NOT claimed (either variant): an unsatisfiable set may be accepted - and is then
+   returned as an equivalent, i.e. equally unsatisfiable, set: >=1,<=1.0,!=1 (the collapse test compares spellings) *)
+Lemma accepts_unsatisfiable_witness :
+  simplify_str true true [(OGe, STR "1"); (OLe, STR "1.0"); (ONe, STR "1")]
+    = Ok [(OGe, STR "1"); (OLe, STR "1.0"); (ONe, STR "1")] /\
+  sat_str (STR "1") [(OGe, STR "1"); (OLe, STR "1.0"); (ONe, STR "1")] = false.
+Proof. split; vm_compute; reflexivity. Qed.
